@@ -597,6 +597,7 @@ let do_fault id ins outs =
     let tag = tr ^ "/" ^ kind ^ (if !fault_tcp then "/tcp-reused" else "") in
     let late = int_of_string lat > int_of_string tmo + 300 in
     if nrep <> "1" || late then verdict (if !fault_tcp then "faulttcp" else "fault") id "spec:C03" tag (Printf.sprintf "replies=%s latency=%sms timeout=%sms" nrep lat tmo)
+    else if outcome = "any" then verdict "fault" id "ok" tag ""   (* cache / TTL-cap world: judged by the bound alone *)
     else if rep = model then verdict (if !fault_tcp then "faulttcp" else "fault") id "ok" tag ""
     else if kind = "ok" && outcome = "up" then
       (* the upstream behaves: the reply is determined (its message under this query's ID) *)
@@ -773,6 +774,17 @@ let do_rfr id ins outs =
     if !problems = [] then verdict "rfr" id "ok" tag ""
     else verdict "rfr" id "spec:C18,C12" tag (String.concat "; " (List.rev !problems))
   | _ -> verdict "rfr" id "diff" "malformed-line" ""
+
+(* ---- engine clientinfo, mode names ----  names <id> <source> <namehex> => ok | panic:<hex> | hang
+   arbitrary device names through the real readers and the per-query lookups: they must return *)
+let do_names id ins outs =
+  match ins, outs with
+  | [src; nm], [out] ->
+    if out = "ok" then verdict "names" id "ok" src ""
+    else verdict "names" id "spec:C14,C18,C02" src
+        (Printf.sprintf "a device name (%s, source %s) makes the discovery code %s" nm src
+           (if out = "hang" then "hang" else "panic: " ^ (try string_of_bytes (bytes_of_token (String.sub out 6 (String.length out - 6))) with _ -> out)))
+  | _ -> verdict "names" id "diff" "malformed-line" ""
 
 (* ---- engine racestress ----  race <i> stress <secs> => none | <frames> <count>
    no model output to compare: a report by the Go race detector whose stacks touch /repo
@@ -1154,6 +1166,7 @@ let () =
       | "sid" :: id :: rest -> let (i, o) = split_arrow rest in do_sid id i o
       | "e2e" :: id :: rest -> let (i, o) = split_arrow rest in do_e2e id i o
       | "lmc" :: id :: rest -> let (i, o) = split_arrow rest in do_lmc id i o
+      | "names" :: id :: rest -> let (i, o) = split_arrow rest in do_names id i o
       | "rfr" :: id :: rest -> let (i, o) = split_arrow rest in do_rfr id i o
       | "cis" :: id :: rest -> let (i, o) = split_arrow rest in do_cis id i o
       | "ci" :: id :: rest -> let (i, o) = split_arrow rest in do_ci id i o
